@@ -80,7 +80,7 @@ func Render(p *Prog, o RenderOpts) map[string]string {
 				s = qualBareRe.ReplaceAllStringFunc(s, func(m string) string { // ‹path› = the bare qualifier (used as a local variable name)
 					path := m[len("‹") : len(m)-len("›")]
 					imports[path] = true
-					if r, ok := f.Rename[path]; ok {
+					if r, ok := f.Rename[path]; ok && r != "." {
 						return r
 					}
 					if pk2, ok := byPath[path]; ok {
@@ -95,6 +95,9 @@ func Render(p *Prog, o RenderOpts) map[string]string {
 					}
 					imports[path] = true
 					if r, ok := f.Rename[path]; ok {
+						if r == "." {
+							return "" // dot import: the bare identifier
+						}
 						return r + "."
 					}
 					if pk2, ok := byPath[path]; ok {
